@@ -107,6 +107,10 @@ type cursor struct {
 	// are we in a numeric sequence, as defined in Example 7 of customisation for LB25
 	numSequence numSequenceState
 
+	// the Line Break Class of the rune following the (CM | ZWJ)* after index i (see rule LB9),
+	// only computed when required by rule LB25 : (PR | PO) × ( OP | HY )? NU
+	nextLineSkipCM lineBreakClass
+
 	// are we in an emoji sequence, as defined in rule GB11
 	// see [updatePictoSequence]
 	pictoSequence pictoSequenceState
